@@ -173,8 +173,10 @@ type TraceEv struct {
 var scratchRoot string
 var selfExe string
 
+var scratchOnce sync.Once
+
 func scratch() string {
-	if scratchRoot == "" {
+	scratchOnce.Do(func() {
 		base := os.Getenv("VERIF_SCRATCH")
 		if base == "" {
 			base = "/var/tmp"
@@ -184,7 +186,7 @@ func scratch() string {
 			panic(err)
 		}
 		scratchRoot = d
-	}
+	})
 	return scratchRoot
 }
 
